@@ -389,6 +389,16 @@ func installHook(kind string) {
 		}()
 	}
 	wg.Wait()
+	// ... and so must error TYPES that were printed before it (whatever is remembered per type about "no hook installed")
+	func() {
+		defer func() { recover() }()
+		c := lib.NewCtx(nil)
+		defer c.Release()
+		for i, caps := range [][]string{{"ER"}, {"ER", "ST"}, {"ER", "FM"}, {"ER", "GS"}, {"ER", "GS", "ST"}, {"ER", "SV"}, {"ER", "REG"}, {"ER", "U8"}} {
+			t := &lib.Term{K: "obj", ID: 950 + i, Caps: caps, B: []int{lib.PTok + 950 + i}}
+			_ = redact.Sprintf("%v %s", c.Value(t), []interface{}{c.Value(t)})
+		}
+	}()
 	currentHook = kind
 	switch kind {
 	case "none":
